@@ -10,7 +10,16 @@ pub fn eval(op: &str) -> String {
         return r;
     }
     let outs = run_history(op);
-    format!("{} ## oracle={}", outs.join(" ; "), oracle_c09_c10(op, &outs, true, false))
+    let mut v = oracle_c09_c10(op, &outs, true, false);
+    if v == "ok" {
+        // "a channel that is currently enabled": the mask itself must be the one the network's
+        // LinkADRReq blocks produced (the block tracker of the C08 oracle)
+        let b = crate::c08::oracle(op, &outs);
+        if b.starts_with("FAIL:linkadr-blocks-mask") {
+            v = b;
+        }
+    }
+    format!("{} ## oracle={}", outs.join(" ; "), v)
 }
 
 pub fn expand(_op: &str) -> Vec<String> {
@@ -167,6 +176,13 @@ pub fn run(tier: &str, seed: u64, dir: &str) {
         for k in 0..(if thorough { 30 } else { 6 }) {
             let op = stale_mask_history("C09", &mut rng, region, k % 3);
             sink.case(&op, &eval(&op), "stale-mask", true);
+        }
+    }
+    // two LinkADRReq blocks in one downlink, the first rejected after widening the mask
+    for region in REGIONS {
+        for k in 0..(if thorough { 24 } else { 6 }) {
+            let op = two_blocks_history("C09", &mut rng, region, k);
+            sink.case(&op, &eval(&op), "linkadr-two-blocks", true);
         }
     }
     // device level: both front-ends with the scripted radio (see adevgen::add_dev_classes)
